@@ -160,7 +160,7 @@ def part_case(count, ident, globs):
     return s
 
 
-def run_part(cwd, count, ident, patterns, all_files, how):
+def run_part(cwd, count, ident, patterns, all_files, how, globs=None):
     args, env = list(patterns), {}
     if how == "flags":
         args = ["--partition-count", str(count), "--partition-id", str(ident)] + args
@@ -170,8 +170,20 @@ def run_part(cwd, count, ident, patterns, all_files, how):
         env = {"BUILDKITE_PARALLEL_JOB_COUNT": str(count), "BUILDKITE_PARALLEL_JOB": str(ident)}
     r = run_cli(cwd, args, env)
     st = statuses(r.stdout, all_files)
-    sel = [f for f in all_files if f in st]
-    bad = [f for f in sel if st[f] != ["OK"]]
+    if globs is None:
+        sel = [f for f in all_files if f in st]
+    else:
+        # overlapping patterns: a file is run once per pattern that selects it; the multiset of
+        # status blocks is laid out pattern by pattern, the way the model's selection is
+        left = {f: len(v) for f, v in st.items()}
+        sel = []
+        for g in globs:
+            for f in g:
+                if left.get(f, 0) > 0:
+                    sel.append(f)
+                    left[f] -= 1
+        sel += [f for f, k in left.items() for _ in range(k)]
+    bad = [f for f in set(sel) if any(t != "OK" for t in st[f])]
     return r, sel, bad
 
 
@@ -180,6 +192,10 @@ def profile_cli18(rnd, n, thorough, out):
     for si in range(nsets):
         cwd = fresh_dir(f"c18_{si}")
         k1, k2 = rnd.randint(2, 30), rnd.choice([0, 1, 1, 2, 5, 10])
+        if si % 4 == 3:
+            k2 = 1
+        elif si % 4 == 2:
+            k2 = rnd.choice([1, 2, 5])
         os.makedirs(os.path.join(cwd, "d", "sub"))
         g1 = ["d/" + x for x in gen_names(rnd, k1)]
         g2 = ["d/sub/" + x for x in gen_names(rnd, k2)]
@@ -188,28 +204,41 @@ def profile_cli18(rnd, n, thorough, out):
         patterns = ["d/*.slt"] + (["d/sub/*.slt"] if g2 else [])
         globs = [g1] + ([g2] if g2 else [])
         allf = g1 + g2
+        overlap = None
+        if si % 4 >= 2 and g2:
+            # overlapping patterns: every file of d/sub is matched twice; with k2 = 1 the second
+            # pattern adds all of d plus that one file
+            if si % 4 == 2:
+                patterns = ["d/sub/*.slt", "d/**/*.slt"]
+                globs = [g2, sorted(g1 + g2)]
+            else:
+                # ... or the second pattern adds only the file(s) of d/sub to what the first matched
+                patterns = ["d/*.slt", "d/**/*.slt"]
+                globs = [g1, sorted(g1 + g2)]
+            overlap = globs
         maxn = 8 if (thorough or si == 0) else 4
         for count in range(1, maxn + 1):
             sels = []
             for ident in range(count):
                 how = rnd.choice(["flags", "flags", "env", "buildkite"])
-                r, sel, bad = run_part(cwd, count, ident, patterns, allf, how)
+                r, sel, bad = run_part(cwd, count, ident, patterns, allf, how, overlap)
                 oracle = None
                 if r.exit != 0 or bad:
                     oracle = f"C18|partition {ident}/{count} ({how}): exit {r.exit}, files not OK: {bad}"
                 sels.append(sel)
                 # re-run in a separate process: identical selection
                 if oracle is None and rnd.random() < (0.5 if thorough else 0.15):
-                    r2, sel2, _ = run_part(cwd, count, ident, patterns, allf, rnd.choice(["flags", "env"]))
+                    r2, sel2, _ = run_part(cwd, count, ident, patterns, allf, rnd.choice(["flags", "env"]), overlap)
                     if sel2 != sel:
                         oracle = f"C18|partition {ident}/{count} selects different files in another process: {sel} vs {sel2}"
                 out.add(part_case(count, ident, globs), "sel " + str(len(sel)) + "".join(" " + hx(p) for p in sel),
                         f"cli18 set={si} N={count} id={ident} via={how}", oracle)
             # union / disjointness on the implementation alone (globs with > 1 match)
-            multi = [f for g in globs if len(g) > 1 for f in g]
-            single = [f for g in globs if len(g) <= 1 for f in g]
-            cnt = {f: sum(1 for s in sels if f in s) for f in allf}
-            wrong = [f for f in multi if cnt[f] != 1] + [f for f in single if cnt[f] != count]
+            # (a file is due once per multi-match pattern that matches it, and once per id for a
+            # pattern with a single match, which is not partitioned)
+            due = {f: sum((1 if len(g) > 1 else count) for g in globs if f in g) for f in allf}
+            cnt = {f: sum(s.count(f) for s in sels) for f in allf}
+            wrong = [f for f in allf if cnt[f] != due[f]]
             if wrong:
                 out.add(part_case(count, 0, globs), "sel -", f"cli18 set={si} N={count} union",
                         f"C18|with N={count} these files are not covered exactly once over all ids: {wrong[:5]}")
@@ -232,7 +261,7 @@ def profile_cli18(rnd, n, thorough, out):
 
 # --------------------------------------------------------------------------------------- C16 / C17 / C19
 
-def file_text(path, kind, rnd, extra=True, n_before=None):
+def file_text(path, kind, rnd, extra=True, n_before=None, linger=False):
     """a test file whose outcome against the fake engine is `kind`; every SQL line carries the
     marker ` -- F<path>` so that the monitor can attribute it"""
     m = f" -- F{path}"
@@ -254,6 +283,10 @@ def file_text(path, kind, rnd, extra=True, n_before=None):
         return f"statement error\nfail{m}\n"
     if n_before is None:
         n_before = rnd.randint(0, 3)
+    if linger:
+        # this file's session needs a while to close after end-of-file: the database must not be
+        # dropped before it has
+        recs.append(f"statement ok\nlinger {rnd.choice([700, 900])} x{m}\n")
     for _ in range(n_before):
         recs.append(ok_rec())
     if kind == "pass":
@@ -361,7 +394,7 @@ def write_set(cwd, n, rnd, kinds_pool, shadows=False):
     for i in range(n):
         f = f"t/f{i:02d}{rnd.choice(['', '-x', '.y', '_z'])}.slt"
         k = rnd.choice(kinds_pool)
-        open(os.path.join(cwd, f), "w").write(file_text(f, k, rnd))
+        open(os.path.join(cwd, f), "w").write(file_text(f, k, rnd, linger=shadows and k == "pass" and rnd.random() < 0.08))
         files.append(f)
         kinds[f] = k
         if shadows and rnd.random() < 0.35:
@@ -387,13 +420,15 @@ def profile_cli16(rnd, n, thorough, out):
             jobs = 0 if mode == "serial" else rnd.randint(1, 8)
             ff = rnd.random() < 0.4
             lat = rnd.choice([0, 0, 5, 20])
-            r, tags, ju, evs, cause, oracle = cli_run_set(cwd, files, kinds, jobs, ff, False, rnd, latency=lat)
-            tag = f"cli16 set={si} mode={mode} jobs={jobs} failfast={ff} kinds={[kinds[f] for f in files]}"
+            # keeping the databases of failed files must not change what is reported
+            keep = mode == "par" and rnd.random() < 0.5
+            r, tags, ju, evs, cause, oracle = cli_run_set(cwd, files, kinds, jobs, ff, keep, rnd, latency=lat)
+            tag = f"cli16 set={si} mode={mode} jobs={jobs} failfast={ff} keep={keep} kinds={[kinds[f] for f in files]}"
             if mode == "serial":
                 # deterministic: diffed against the model's fold
                 impl = f"exit={0 if r.exit == 0 else 1} " + " ".join(TAGMAP[tags.get(f, [None])[0]] for f in files)
                 out.add(f"serial {1 if ff else 0} {len(files)} " + " ".join(GROUND[kinds[f]] for f in files), impl, tag, None)
-            out.add(climon_case(jobs, False, r.exit, cause, files, kinds, tags, ju, evs), "accept", tag,
+            out.add(climon_case(jobs, keep, r.exit, cause, files, kinds, tags, ju, evs), "accept", tag,
                     ("C16|" + oracle) if oracle else None)
         # a cancelled file makes the exit status non-zero: Ctrl-C while the LAST file is running
         if all(kinds[f] == "pass" for f in files):
@@ -626,7 +661,13 @@ def gen_cli_tree(rnd, multi=0):
         for _ in range(rnd.randint(0, 2)):
             body += rnd.choice(["control sortmode rowsort\n\n", "control sortmode valuesort\n\n", "hash-threshold 2\n\n",
                                 "control substitution on\n\n", "hash-threshold 3\n\n"])
-        body += records(rnd.randint(1, 4))
+        # ... directly followed by a record that is sensitive to such state
+        hdr, sql, block = rnd.choice(UPD_RECORDS[-3:] + SUBST_RECORDS + [("query T", "rows 4", "----\nr0\nr1\nr2\nr3\n")])
+        ctr[0] += 1
+        q = sql.format(n=ctr[0] * 10 + 1, m=ctr[0] * 10 + 2, c=4)
+        sqls.append(q)
+        body += f"{hdr}\n{q}\n{block.format(n=ctr[0] * 10 + 1, m=ctr[0] * 10 + 2)}\n"
+        body += records(rnd.randint(0, 3))
         nm = f"m{i}.slt"
         tree.append((nm, ending(body)))
         extra.append(nm)
